@@ -26,6 +26,8 @@ RULE = ('receiver + 0..3 others (single table / list / tuple form), each 1..4 x 
 TRUSTED = ['hand-written model coq/Model/Merge.v tied to biom/table.py:3397-3418,3704-4038 and biom/util.py:195-197 by this correspondence run',
            'harness.tables.Coder: id codes respect python string order (sorted() = sort by code)',
            'extraction (ExtrOcamlBasic only) + ocaml/driver_tail.ml, cross-checked against vm_compute on a sample']
+from . import regen as _regen
+regenerate = _regen.hook(TRUSTED, ['helpers', 'util'])   # py2v: regenerate coq/Gen/* from the source first
 ASSUMPTIONS = ['operands are coherent tables (C05) with at least one observation and one sample',
                'metadata None and the empty dict are the same observation of "no metadata for this id"',
                'a metadata-merge function is a deterministic total function of its two arguments returning a dict or None; '
